@@ -78,7 +78,7 @@ PROPS["C20"] = {
 NOT_APPLICABLE = {}
 
 # verif-guarded hook commits in /repo (add-only)
-HOOK_COMMITS = ["fd0e965", "d11cf72", "46739fb", "981ad0e", "643526d", "e05858a", "edb0adb", "7d5379a", "42d08ad", "d63880c", "c52c40e", "cfdc2ec", "ee229a3", "82ee13c"]
+HOOK_COMMITS = ["fd0e965", "d11cf72", "46739fb", "981ad0e", "643526d", "e05858a", "edb0adb", "7d5379a", "42d08ad", "d63880c", "c52c40e", "cfdc2ec", "ee229a3", "82ee13c", "c8aaeb5"]
 
 PROPS["C09"] = {
     "modules": ["OxiaVerif.Props.C09", "OxiaVerif.Props.C09OnTree"],
@@ -278,12 +278,13 @@ PROPS["C03"] = {
 PROPS["C04"] = {
     "modules": ["OxiaVerif.Props.C04", "OxiaVerif.Props.ReplSafety"],
     "facts": ["newTermRejectsLowerAndPersistsFirst", "newTermWaitsForInFlightAppends", "writeChecksLeaderStatusBeforeAlloc", "writeHoldsAppendLockAcrossAllocAndAppend",
-              "followerAppendChecksTermAlways", "followerTruncateOnlyWhenFenced", "snapshotChunkTermMustEqual", "lateRequestCannotConvertLeader", "becomeLeaderOnlyFromFencedSameTerm"],
-    "trusted_base": REPLTRUST + ["the race between a client write and NewTerm is driven through the yield point leader.write.allocated; the follower's sync goroutine (WAL sync outside the controller lock) is not driven"],
+              "followerAppendChecksTermAlways", "followerTruncateOnlyWhenFenced", "snapshotChunkTermMustEqual", "lateRequestCannotConvertLeader", "becomeLeaderOnlyFromFencedSameTerm",
+              "followerNewTermSyncsWalBeforeHead", "leaderNewTermSyncsWalBeforeHead"],
+    "trusted_base": REPLTRUST + ["the race between a client write and NewTerm is driven through the yield point leader.write.allocated, the race between a follower's append and NewTerm through the yield point follower.sync.woken (the sync goroutine held before it syncs the WAL); the leader's NewTerm against a queued sync of a syncing WAL is tied by a fact only (the harness' WALs do not sync)"],
     "assumptions": ["each RPC is atomic (the controller lock), except the leader write, whose two halves are ordered by the append lock (fact)"],
-    "rule": PRULE + " Added: a client write held between the leader's status check and its WAL append while a NewTerm request for that node is served (the node cut off from its followers); oracle: the head the node answers equals the end of its log afterwards, the log of a fenced node does not grow, writes on fenced nodes are refused.",
-    "level_text": "Machine-checked proof (Lean 4) on M-Repl: a successful NewTerm leaves the node fenced in the new term with its log untouched and reports exactly the end of that log; a lower term is always refused; a node that is not leader refuses client writes and nothing changes; appends and truncations of a leader of another term are neither applied nor acknowledged; a request of another term cannot turn a leader controller into a follower; with NewTerm ordered after in-flight appends (fact) the reported head is final (C04_reported_head_is_final) - proved counterexample without the lock (D-42). On A-Repl (DESIGN.md 10.7), for every step from every state: a node's log changes only by its own write while it leads or by an attach / append from the node that leads the node's current term (log_changes_only_in_current_term), and terms never go back (term_monotone). Tied to the code by nine facts and by differential runs with the race driven through a yield point.",
-    "level_note": "Trusted: Lean kernel; extractor rules; protocol harness; yield hook. Fixed D-42 (write between status check and append outlived the fencing).",
+    "rule": PRULE + " Added: a client write held between the leader's status check and its WAL append while a NewTerm request for that node is served (the node cut off from its followers); an entry appended by a follower whose sync goroutine is held while a NewTerm request for the follower is served; oracle: the head the node answers equals the end of its log afterwards, the log of a fenced node does not grow, writes on fenced nodes are refused.",
+    "level_text": "Machine-checked proof (Lean 4) on M-Repl: a successful NewTerm leaves the node fenced in the new term with its log untouched and reports exactly the end of that log; a lower term is always refused; a node that is not leader refuses client writes and nothing changes; appends and truncations of a leader of another term are neither applied nor acknowledged; a request of another term cannot turn a leader controller into a follower; with NewTerm ordered after in-flight appends (fact) the reported head is final (C04_reported_head_is_final) - proved counterexample without the lock (D-42); the same for a follower fenced while an appended entry waits for its sync goroutine, given that NewTerm syncs the WAL before it reads the head (C04_follower_reported_head_is_final; proved counterexample without the sync, D-48). On A-Repl (DESIGN.md 10.7), for every step from every state: a node's log changes only by its own write while it leads or by an attach / append from the node that leads the node's current term (log_changes_only_in_current_term), and terms never go back (term_monotone). Tied to the code by nine facts and by differential runs with the race driven through a yield point.",
+    "level_note": "Trusted: Lean kernel; extractor rules; protocol harness; yield hook. Fixed D-42 (write between status check and append outlived the fencing) and D-48 (a follower fenced before its sync goroutine ran reported a head that lagged its log; acknowledged writes ended up on fewer nodes than the quorum).",
     "technique": "Lean 4 proof (per-RPC theorems on the protocol model) + regenerated facts + differential correspondence with a scheduled race",
     "design_ref": "DESIGN.md section 6 C04",
 }
